@@ -706,7 +706,7 @@ def _generator_comprehensions_to_loops(repo: Repo, view: FuncInfo) -> bool:
             kind = "set"
         elif isinstance(val, ast.ListComp):
             kind = "list"
-        if kind is None or len(comp.generators) != 1 or comp.generators[0].is_async or not isinstance(comp.generators[0].iter, ast.Call):
+        if kind is None or not comp.generators or any(g_.is_async for g_ in comp.generators) or not isinstance(comp.generators[0].iter, ast.Call):
             return None
         g = comp.generators[0]
         f = _helper_of(repo, view, g.iter)
@@ -715,13 +715,17 @@ def _generator_comprehensions_to_loops(repo: Repo, view: FuncInfo) -> bool:
         acc = fresh()
         init = ast.copy_location(ast.Assign(targets=[ast.Name(id=acc, ctx=ast.Store())], value=ast.Call(func=ast.Name(id=kind, ctx=ast.Load()), args=[], keywords=[])), st)
         add = ast.copy_location(ast.Expr(value=ast.Call(func=ast.Attribute(value=ast.Name(id=acc, ctx=ast.Load()), attr="add" if kind == "set" else "append", ctx=ast.Load()), args=[comp.elt], keywords=[])), st)
+        # `[e for a in G if c for b in I if d]` is `for a in G: if c: for b in I: if d: acc.append(e)` (same evaluation order)
         body: list[ast.stmt] = [add]
-        for c in reversed(g.ifs):
-            body = [ast.copy_location(ast.If(test=c, body=body, orelse=[]), st)]
-        loop = ast.copy_location(ast.For(target=g.target, iter=g.iter, body=body, orelse=[]), st)
-        for n in ast.walk(loop.target):
-            if isinstance(n, (ast.Name, ast.Tuple, ast.List)):
-                n.ctx = ast.Store()
+        loop = None
+        for g_ in reversed(comp.generators):
+            for c in reversed(g_.ifs):
+                body = [ast.copy_location(ast.If(test=c, body=body, orelse=[]), st)]
+            loop = ast.copy_location(ast.For(target=g_.target, iter=g_.iter, body=body, orelse=[]), st)
+            for n in ast.walk(loop.target):
+                if isinstance(n, (ast.Name, ast.Tuple, ast.List)):
+                    n.ctx = ast.Store()
+            body = [loop]
         st.value = ast.copy_location(ast.Name(id=acc, ctx=ast.Load()), val)
         return [init, loop, st]
 
@@ -792,6 +796,70 @@ def _unqualified(repo: Repo, fi: FuncInfo) -> FuncInfo:
     return pre
 
 
+_GROW = {"add", "update", "append", "extend", "insert", "appendleft", "extendleft"}
+_SHRINK = {"remove", "discard", "clear", "pop", "popleft", "difference_update", "intersection_update", "symmetric_difference_update", "sort", "reverse"}
+
+
+def _superset_copies(fn: ast.AST, params: set[str]) -> dict[str, tuple[str, int]]:
+    """V -> (X, position of V's binding) for locals `V = set(X)` / `X.copy()` / `list(X)` (a *copy* of the node set X, bound once by a
+    top-level statement) that afterwards only grow (`V.add(..)`, `V.update(..)`, `V |= ..`) while X is not changed any more:
+    V >= X holds wherever V is read."""
+    single = _single_assignments(fn)
+    mut = _mutation_positions(fn)
+    pos = mut["@pos"]
+    out: dict[str, tuple[str, int]] = {}
+    for v_name, val in single.items():
+        if v_name in params:
+            continue
+        x = strip(val)
+        if not (isinstance(x, ast.Name) and x is not val and x.id != v_name):
+            continue
+        st = stmt_of(val)
+        if st is None or parent(st) is not fn:
+            continue
+        here = pos.get(id(val), -1)
+        if any(p_ > here for p_ in mut.get(x.id, [])):
+            continue
+        ok = True
+        for n in ast.walk(fn):
+            if isinstance(n, ast.Call) and isinstance(n.func, ast.Attribute) and isinstance(n.func.value, ast.Name) and n.func.value.id == v_name and n.func.attr in _SHRINK:
+                ok = False
+            elif isinstance(n, ast.AugAssign) and isinstance(n.target, ast.Name) and n.target.id == v_name and not isinstance(n.op, (ast.BitOr, ast.Add)):
+                ok = False
+        if ok:
+            out[v_name] = (x.id, here)
+    return out
+
+
+def _expand_superset_tests(fn: ast.AST, params: set[str]) -> None:
+    """With V >= X (see _superset_copies) `e in V` is `e in V or e in X` and `e not in V` is `e not in V and e not in X`: written out,
+    so that what a test of the merged set (`closed = set(excluded)`, then every expanded node is added) says about the set it was
+    seeded from survives the later growth of V (path conditions on V are dropped once V is mutated, those on X are not)."""
+    set_parents(fn)
+    sup = _superset_copies(fn, params)
+    if not sup:
+        return
+    pos = {id(n): i for i, n in enumerate(_preorder(fn))}
+    for par in list(ast.walk(fn)):
+        for fld, val in list(ast.iter_fields(par)):
+            items = val if isinstance(val, list) else [val]
+            for i, x in enumerate(items):
+                if not (isinstance(x, ast.Compare) and len(x.ops) == 1 and isinstance(x.ops[0], (ast.In, ast.NotIn)) and isinstance(x.comparators[0], ast.Name) and x.comparators[0].id in sup):
+                    continue
+                base, here = sup[x.comparators[0].id]
+                if pos.get(id(x), -1) <= here:
+                    continue
+                other = ast.copy_location(ast.Compare(left=_clone(x.left), ops=[type(x.ops[0])()], comparators=[ast.copy_location(ast.Name(id=base, ctx=ast.Load()), x)]), x)
+                new = ast.copy_location(ast.BoolOp(op=ast.Or() if isinstance(x.ops[0], ast.In) else ast.And(), values=[x, other]), x)
+                for n_ in (other, new):
+                    if hasattr(x, "_src"):
+                        n_._src = x._src  # type: ignore[attr-defined]
+                if isinstance(val, list):
+                    val[i] = new
+                else:
+                    setattr(par, fld, new)
+
+
 def search_view(repo: Repo, fi: FuncInfo) -> FuncInfo:
     cache = repo.__dict__.setdefault("_search_views", {})
     if fi.fq in cache:
@@ -818,6 +886,7 @@ def search_view(repo: Repo, fi: FuncInfo) -> FuncInfo:
     _project_tuples(node)
     node.body = _thread_none_exits(node.body)
     _eliminate_aliases(node, set(fi.param_names))
+    _expand_superset_tests(node, set(fi.param_names))
     node.body = _split_conditions(node.body)
     ast.fix_missing_locations(node)
     set_parents(node)
@@ -1298,6 +1367,48 @@ def _receiving_var(call: ast.AST) -> tuple[str | None, bool]:
     return None, False
 
 
+def _flattened_into(fn: ast.AST, name: str) -> str | None:
+    """The node set a collection of node sets `name` is united into: `X = set().union(*name)`, `X.update(*name)`, `X |= set().union(*name)`,
+    `X = set(chain.from_iterable(name))`, `X = {n for t in name for n in t}`, `X = reduce(<union>, name, set())`. None unless every use
+    of `name` is such a flattening into one and the same variable."""
+    targets: set[str | None] = set()
+    for n in ast.walk(fn):
+        if not (isinstance(n, ast.Name) and n.id == name and isinstance(n.ctx, ast.Load)):
+            continue
+        par = parent(n)
+        flat = None
+        if isinstance(par, ast.Starred):
+            call = parent(par)
+            if isinstance(call, ast.Call) and isinstance(call.func, ast.Attribute) and call.func.attr in ("union", "update") and any(a is par for a in call.args):
+                flat = call
+            elif isinstance(call, ast.Call) and dotted(call.func).split(".")[-1] == "chain":
+                flat = call
+        elif isinstance(par, ast.Call) and any(a is n for a in par.args):
+            fname = dotted(par.func).split(".")[-1]
+            if fname == "from_iterable" or (fname == "reduce" and len(par.args) >= 2 and par.args[1] is n):
+                flat = par
+        elif isinstance(par, ast.comprehension) and par.iter is n and isinstance(par.target, ast.Name):
+            comp = parent(par)
+            if isinstance(comp, _COMPS) and len(comp.generators) == 2 and comp.generators[0] is par:
+                g2 = comp.generators[1]
+                if isinstance(g2.iter, ast.Name) and g2.iter.id == par.target.id and isinstance(g2.target, ast.Name) and isinstance(comp.elt, ast.Name) and comp.elt.id == g2.target.id and not par.ifs and not g2.ifs:
+                    flat = comp
+        if flat is None:
+            return None
+        st = stmt_of(flat)
+        tgt = None
+        if isinstance(st, ast.Assign) and len(st.targets) == 1 and isinstance(st.targets[0], ast.Name):
+            tgt = st.targets[0].id
+        elif isinstance(st, (ast.AnnAssign, ast.AugAssign)) and isinstance(st.target, ast.Name):
+            tgt = st.target.id
+        elif isinstance(st, ast.Expr) and isinstance(st.value, ast.Call) and isinstance(st.value.func, ast.Attribute) and isinstance(st.value.func.value, ast.Name) and st.value.func.attr == "update":
+            tgt = st.value.func.value.id
+        targets.add(tgt)
+    if len(targets) == 1:
+        return next(iter(targets))
+    return None
+
+
 def _subtree_sites(m: SearchModel, single: dict[str, ast.expr]) -> list[SubtreeSite]:
     fn = m.fi.node
     params = m.fi.param_names
@@ -1308,6 +1419,10 @@ def _subtree_sites(m: SearchModel, single: dict[str, ast.expr]) -> list[SubtreeS
         arg_e = c.args[1] if len(c.args) == 2 else next((k.value for k in c.keywords if k.arg not in (None, "graph")), None)
         arg = dotted(arg_e) if arg_e is not None else ""
         target, assigned = _receiving_var(c)
+        if target is not None and not assigned and target in single and isinstance(strip(single[target]), _COMPS) and strip(single[target]).elt is c:
+            # `trees = (get_all_submodules_of(graph, m) for m in P)`: a collection of sub-trees, not a node set; the node set is
+            # what the collection is flattened into (`X = set().union(*trees)`, `X.update(*trees)`, `{n for t in trees for n in t}`)
+            target = _flattened_into(fn, target)
         site = SubtreeSite(c, arg, None, None, [], target, assigned, None)
         bl = _binding_loop(arg, c) if arg else None
         if bl is not None:
@@ -1690,11 +1805,33 @@ def build(repo: Repo, fi: FuncInfo) -> SearchModel | None:
             if ids is not None:
                 model.parent_id_sets[tgt] = ids
     _loop_built_parent_ids(model, sites, single)
+    if kind != "while":
+        # `for n in reversed(list(own))`: the iterated set is itself the start set (not the expression it was computed by)
+        wl_base = strip(wl_expr)
+        if isinstance(wl_base, ast.Name) and (wl_base.id in model.submodule_sets or wl_base.id in model.accumulated_sets):
+            model.worklist_sources = [wl_base.id]
     for n in ast.walk(fn):
         if isinstance(n, ast.Call) and isinstance(n.func, ast.Attribute) and n.func.attr in ("add", "remove", "discard") and len(n.args) == 1 and dotted(n.func.value):
             recv = dotted(n.func.value)
             if recv in model.submodule_sets or recv in model.accumulated_sets:
                 model.set_ops.append(SetOp("add" if n.func.attr == "add" else "remove", recv, _node_expr_text(n.args[0], single), n, model.guard_of(n)))
+        # `S -= {f.identifier for f in P if f.identifier_is_parent_module}` / `S.difference_update(..)`: one removal per element
+        recv = removed = None
+        if isinstance(n, ast.AugAssign) and isinstance(n.op, ast.Sub) and isinstance(n.target, ast.Name):
+            recv, removed = n.target.id, [n.value]
+        elif isinstance(n, ast.Call) and isinstance(n.func, ast.Attribute) and n.func.attr == "difference_update" and isinstance(n.func.value, ast.Name) and n.args and not n.keywords:
+            recv, removed = n.func.value.id, list(n.args)
+        if recv is not None and (recv in model.submodule_sets or recv in model.accumulated_sets):
+            for r_ in removed:
+                r_ids = _parent_ids(r_, v.param_names, single)
+                if r_ids is not None:
+                    # the parent-module identifiers of a literal sequence of filter parameters
+                    for p_ in r_ids:
+                        model.set_ops.append(SetOp("remove", recv, f"{p_}.{NODE_ATTR}", n, f_and([model.guard_of(n), atom(f"bool({p_}.{PARENT_FLAG})")])))
+                    continue
+                for elt, comp in _iter_elements(r_, single):
+                    cs_ = all_conds(v, elt) + ([] if any(a is n for a in ancestors(elt)) else all_conds(v, n))
+                    model.set_ops.append(SetOp("remove", recv, _node_expr_text(elt, single), n, conds_formula(cs_, model.subst)))
 
     # ---- role
     if fi.name == SUBMODULES:
